@@ -15,10 +15,17 @@ type Effect struct {
 	Except string         // with All: every array except those whose key starts with this prefix
 	All  bool            // may write anything
 	Ext  bool            // may write memory owned by external (non-falco) types
+	Parts    []*Effect   // sub-effects that could not be merged (they carry their own Preserve list)
+	Preserve []string    // heap keys containing one of these are not hit (assumed-unchanged arrays of a by-induction contract)
 	Keys map[string]bool // heap-key prefixes: "F:<owner>.<field>:", "E:<elem>:", "C:<type>:", "MD:<k>:<v>", "MV:<k>:<v>:", "G:<name>:"
 }
 
 func (a *Effect) add(b *Effect) {
+	if len(b.Preserve) > 0 {
+		a.Parts = append(a.Parts, b)
+		return
+	}
+	a.Parts = append(a.Parts, b.Parts...)
 	if b.All {
 		switch {
 		case a.All && a.Except != b.Except:
@@ -36,11 +43,34 @@ func (a *Effect) add(b *Effect) {
 	}
 }
 
-func (a *Effect) pure() bool { return !a.All && !a.Ext && len(a.Keys) == 0 }
+func (a *Effect) pure() bool {
+	for _, p := range a.Parts {
+		if !p.pure() {
+			return false
+		}
+	}
+	return !a.All && !a.Ext && len(a.Keys) == 0
+}
+
+// flat: the effect itself and its unmerged parts.
+func (a *Effect) flat() []*Effect {
+	out := []*Effect{a}
+	for _, p := range a.Parts {
+		out = append(out, p.flat()...)
+	}
+	return out
+}
 
 func (a *Effect) setAll() { a.All = true; a.Except = "" }
 
-func (a *Effect) full() bool { return a.All && a.Except == "" }
+func (a *Effect) full() bool {
+	for _, p := range a.Parts {
+		if p.full() {
+			return true
+		}
+	}
+	return a.All && a.Except == "" && len(a.Preserve) == 0
+}
 
 func (a *Effect) String() string {
 	if a.All && a.Except != "" {
@@ -347,6 +377,11 @@ func (P *Program) callEffect(eff *Effect, c *ssa.CallCommon, caller *ssa.Functio
 		if con.has("pure") {
 			return
 		}
+		if keep := con.preserved(); len(keep) > 0 && !con.has("assigns") {
+			base := P.effectOf(callee)
+			eff.add(&Effect{All: base.All, Except: base.Except, Ext: base.Ext, Keys: base.Keys, Parts: base.Parts, Preserve: keep})
+			return
+		}
 		if con.has("assigns") {
 			if ce := P.contractEffect(callee, con); ce != nil {
 				eff.add(ce)
@@ -361,6 +396,16 @@ func (P *Program) callEffect(eff *Effect, c *ssa.CallCommon, caller *ssa.Functio
 func (eff *Effect) hits(key string) bool {
 	if isGhostKey(key) {
 		return false // ghost fields change only through ghost-effects (see havocGhosts)
+	}
+	for _, p := range eff.Parts {
+		if p.hits(key) {
+			return true
+		}
+	}
+	for _, p := range eff.Preserve {
+		if strings.Contains(key, p) {
+			return false
+		}
 	}
 	if eff.All && (eff.Except == "" || !strings.HasPrefix(key, eff.Except)) {
 		return true
@@ -377,7 +422,7 @@ func (eff *Effect) hits(key string) bool {
 }
 
 func (e *Engine) havocEffect(st *State, eff *Effect, why string) {
-	if eff.All && eff.Except == "" {
+	if eff.full() {
 		e.havocHeap(st, why)
 		return
 	}
@@ -547,6 +592,12 @@ func (P *Program) reachWalk(fn *ssa.Function, visit func(*ssa.Function) bool) {
 		}
 		seen[f] = true
 		falco := inFalco(f)
+		if falco && !first && f.Blocks != nil {
+			// a function whose (checked) contract says `pure` writes nothing the caller can see
+			if con := P.contractFor(f); con != nil && con.has("pure") {
+				continue
+			}
+		}
 		if falco || first || !it.inExtern {
 			if !visit(f) {
 				return
@@ -569,4 +620,23 @@ func (P *Program) reachWalk(fn *ssa.Function, visit func(*ssa.Function) bool) {
 			}
 		}
 	}
+}
+
+// mayHitFragment: could the effect write some array whose key contains frag? (used for arrays that
+// were never touched by the verified function itself)
+func (eff *Effect) mayHitFragment(frag string) bool {
+	for _, p := range eff.Preserve {
+		if p == frag {
+			return false
+		}
+	}
+	if eff.All {
+		return true
+	}
+	for k := range eff.Keys {
+		if strings.Contains(k, frag) || strings.Contains(frag, strings.TrimSuffix(k, ":")) {
+			return true
+		}
+	}
+	return false
 }
